@@ -42,6 +42,68 @@ CLAIMS["C03"] = dict(
          "is the selection rule over the retained entries.",
     technique="deductive: symbolic lists + loop invariant + quantified VCs, z3 (E-matching / MBQI) per obligation",
 )
+CLAIMS["C05"] = dict(
+    category="proof",
+    text="Budget and counting clauses as obligations over the real code: Problem.__call__ increases Problem.n_eval by exactly one for any "
+         "objective incl. fun=None and keeps fun/maxcv histories equal to the last min(nfev, history_size) raw evaluations (list "
+         "reasoning with pop(0)); _eval never evaluates beyond maxfev; the initial sampling loop (invariant nev == max(k,1) <= maxfev) "
+         "and the main loop of minimize (invariant n_iter <= maxiter, 1 <= nfev <= maxfev) are cut at inductive invariants and all "
+         "~1400 paths incl. every exceptional exit are enumerated; _build_result reports exactly these counters.",
+    design_ref="5 C05",
+    note="Callees are contract stubs verified by their own units (Problem.__call__, _eval, Models.__init__, TrustRegion.__init__, "
+         "_build_result); contracts of the TrustRegion/Models methods called in the loop are assumed to make no evaluation (their "
+         "bodies are checked for that under C06 where claimed); integers are mathematical.",
+    technique="deductive: loop invariants + path enumeration of the real bodies, z3",
+)
+CLAIMS["C07"] = dict(
+    category="proof",
+    text="minimize's real body is explored with every callee replaced by its contract (incl. all exceptional outcomes): at each of the "
+         "hand-overs to _build_result the status-specific clause of the statement is an obligation (0 => resolution == radius_final, "
+         "1/3/4 => the corresponding request was raised by the last evaluation, 2 => n == 0, 5 => nfev == maxfev, 6 => nit == maxiter, "
+         "-1 => infeasible bounds, success only with 0..4); _build_result's message table, status value and success rule are proved "
+         "against the documented table for all nine statuses.",
+    design_ref="5 C07",
+    note="Exceptional contracts of Models.__init__/TrustRegion.__init__/_eval are proved by their own units over contract stubs of "
+         "Problem; 'returned point meets the target / is feasible' relies on C03's selection rule plus the trigger evaluation being "
+         "in the filter (COVER) and is not re-proved end-to-end.",
+    technique="deductive: exceptional postconditions + path enumeration, z3",
+)
+CLAIMS["C08"] = dict(
+    category="proof",
+    text="Exception-escape obligations on the real bodies: every Python-level exception on any explored path of minimize, _eval, "
+         "_build_result, Problem.__call__, Problem.best_eval, Models.__init__, TrustRegion.__init__ that is not in the function's "
+         "exceptional contract is a failed obligation; minimize lets only ValueError/TypeError from the validation callees escape; "
+         "Problem.__call__ returns barrier-clipped NaN-free values (exact in the ORDER model) while the filter/history keep raw ones; "
+         "_build_result never labels a NaN result successful.",
+    design_ref="5 C08",
+    note="Exceptions raised inside NumPy/SciPy primitives and termination of callees/library routines are not verified (partial "
+         "correctness; main-loop variant only); argument-normalisation functions (_get_bounds, _get_constraints, Problem.__init__) "
+         "are contract stubs here.",
+    technique="deductive: exceptional postconditions over all paths, z3",
+)
+CLAIMS["C09"] = dict(
+    category="proof",
+    text="For _eval and the initial sampling loop: a stopping request (target, feasibility, callback) is raised iff the just evaluated "
+         "point satisfies it, tested on the values of that very evaluation, and no further evaluation happens before the exception; in "
+         "minimize every handler reaches _build_result with no intervening evaluation (ghost trigger index == nfev) and statuses 1/3/4 "
+         "are never issued otherwise; the penalty used to pick the returned point equals the one given to the callback.",
+    design_ref="5 C09",
+    note="N4: requests are evaluated on the barrier-clipped values the solver receives; that the returned point satisfies the request "
+         "relies on C03 (filter COVER + selection rule), composed informally.",
+    technique="deductive: ghost call log / trigger index, exceptional postconditions, z3",
+)
+CLAIMS["C20"] = dict(
+    category="proof",
+    text="Effect clauses on the real Problem.__call__: exactly one callback event per call, after the filter update, with the point "
+         "returned by best_eval(penalty) rebuilt by build_x and its fun, in the calling convention selected by the signature test "
+         "(both shapes explored); best_eval returns one retained triple chosen by the documented rule; _eval/Models.__init__ forward "
+         "the framework's penalty and minimize hands the same penalty to _build_result on the callback exit; StopIteration => "
+         "CallbackSuccess => status 3 with nfev = index of that evaluation.",
+    design_ref="5 C20",
+    note="That the array handed to the callback is fresh and within bounds is the contract of build_x (C01.O1, claimed there); "
+         "callable objects/partials are covered only through inspect.signature's own behaviour (assumed).",
+    technique="deductive: effect (frame) clauses over the ghost call log, z3",
+)
 NOT_YET = "no check registered yet in this revision (machinery under construction); not claimed"
 NA = {
     "C04": "convergence to the minimiser on reference problems is a whole-run limit property of a floating-point iteration; "
